@@ -19,9 +19,14 @@ func register(id string, f propFunc) { props[id] = f }
 
 func main() {
 	repo := flag.String("repo", "/repo", "repository root")
-	verif := flag.String("verif", "/verif", "verification root (evidence, known findings)")
-	prop := flag.String("prop", "", "property id (C01..C20)")
+	verif := flag.String("verif", "/verif", "verification root (known findings, seeded corpus)")
+	out := flag.String("out", "", "directory that receives evidence/ (default: the verification root)")
+	prop := flag.String("prop", "", "property id (C01..C20), a comma list, or all")
 	tier := flag.String("tier", "quick", "quick|thorough")
+	goos := flag.String("goos", "", "GOOS of the analysed build configuration (default: host)")
+	goarch := flag.String("goarch", "", "GOARCH of the analysed build configuration (default: host)")
+	summary := flag.Bool("summary", false, "print one machine-readable SUMMARY line per property (used by the thorough tier's child runs)")
+	noself := flag.Bool("noselftest", false, "thorough: skip the seeded-change corpus")
 	dump := flag.String("dump", "", "debug: dump the traces of a function (qualified name)")
 	explain := flag.Bool("explain", false, "print every obligation")
 	list := flag.Bool("list", false, "list registered properties")
@@ -29,67 +34,110 @@ func main() {
 	if t := os.Getenv("VERIF_TIER"); t == "quick" || t == "thorough" {
 		*tier = t
 	}
+	if *out == "" {
+		*out = *verif
+	}
 	seed := 0
 	if s := os.Getenv("VERIF_SEED"); s != "" {
 		if n, err := strconv.Atoi(s); err == nil {
 			seed = n
 		}
 	}
+	var all []string
+	for id := range props {
+		all = append(all, id)
+	}
+	sort.Strings(all)
 	if *list {
-		var ids []string
-		for id := range props {
-			ids = append(ids, id)
-		}
-		sort.Strings(ids)
-		fmt.Println(strings.Join(ids, " "))
+		fmt.Println(strings.Join(all, " "))
 		return
 	}
+	var ids []string
+	switch {
+	case *prop == "all":
+		ids = all
+	case *prop != "":
+		ids = strings.Split(*prop, ",")
+	}
+	for _, id := range ids {
+		if _, ok := props[id]; !ok {
+			fmt.Printf("unknown property %q\n", id)
+			os.Exit(2)
+		}
+	}
 	start := time.Now()
-	p, err := Load(*repo, *tier == "thorough", "", "")
+	p, err := Load(*repo, *tier == "thorough", *goos, *goarch)
 	if err != nil {
 		// a tree that does not type-check cannot be decided
 		fmt.Printf("UNDECIDED load: %v\n", err)
-		if *prop != "" {
-			os.MkdirAll(*verif+"/evidence/violations", 0o755)
-			path := fmt.Sprintf("%s/evidence/violations/%s-load.json", *verif, *prop)
-			os.WriteFile(path, []byte(fmt.Sprintf("{\"property\":%q,\"status\":\"undecided\",\"detail\":%q}\n", *prop, err.Error())), 0o644)
-			fmt.Printf("VIOLATION property=%s replay=%s\n", *prop, path)
+		for _, id := range ids {
+			os.MkdirAll(*out+"/evidence/violations", 0o755)
+			path := fmt.Sprintf("%s/evidence/violations/%s-load.json", *out, id)
+			os.WriteFile(path, []byte(fmt.Sprintf("{\"property\":%q,\"status\":\"undecided\",\"detail\":%q}\n", id, err.Error())), 0o644)
+			fmt.Printf("VIOLATION property=%s replay=%s\n", id, path)
+			if *summary {
+				fmt.Printf("SUMMARY %s\n", mustJSON(runSummary{Prop: id, Violations: []sumViol{{Rule: id + "/LOAD", Construct: "load", Status: "undecided", Detail: err.Error()}}}))
+			}
 		}
 		os.Exit(1)
 	}
-	fmt.Printf("loaded %d packages, %d files, %d functions from %s (module go %s) in %.1fs\n",
-		len(p.Pkgs), p.Files, len(p.Funcs), *repo, p.GoVersion, time.Since(start).Seconds())
+	fmt.Printf("loaded %d packages, %d files, %d functions from %s (module go %s%s) in %.1fs\n",
+		len(p.Pkgs), p.Files, len(p.Funcs), *repo, p.GoVersion, cfgLabel(*goos, *goarch), time.Since(start).Seconds())
 	if *dump != "" {
 		dumpTraces(p, *dump)
 		return
 	}
-	f, ok := props[*prop]
-	if !ok {
-		fmt.Printf("unknown property %q\n", *prop)
+	if len(ids) == 0 {
+		fmt.Println("no property given (-prop)")
 		os.Exit(2)
 	}
-	c := NewCtx(p, *prop, *tier)
-	c.Explain = *explain
-	code := func() (code int) {
-		defer func() {
-			if r := recover(); r != nil {
-				fmt.Printf("UNDECIDED analysis panic: %v\n%s\n", r, debug.Stack())
-				path := fmt.Sprintf("%s/evidence/violations/%s-panic.json", *verif, *prop)
-				os.MkdirAll(*verif+"/evidence/violations", 0o755)
-				os.WriteFile(path, []byte(fmt.Sprintf("{\"property\":%q,\"status\":\"undecided\",\"detail\":%q}\n", *prop, fmt.Sprint(r))), 0o644)
-				fmt.Printf("VIOLATION property=%s replay=%s\n", *prop, path)
-				code = 1
-			}
-		}()
-		expl := f(c)
-		if *explain {
-			for _, o := range c.Obls {
-				fmt.Printf("  [%s] %s %s @%s %s\n", o.Status, o.Rule, o.Construct, o.Pos, o.Detail)
-			}
+	exit := 0
+	for _, id := range ids {
+		pstart := time.Now()
+		if len(ids) == 1 {
+			pstart = start
 		}
-		return c.Finish(*verif, seed, start, expl, nil)
-	}()
-	os.Exit(code)
+		c := NewCtx(p, id, *tier)
+		c.Explain = *explain
+		c.Verif, c.Out, c.Summary = *verif, *out, *summary
+		code := func() (code int) {
+			defer func() {
+				if r := recover(); r != nil {
+					fmt.Printf("UNDECIDED analysis panic: %v\n%s\n", r, debug.Stack())
+					path := fmt.Sprintf("%s/evidence/violations/%s-panic.json", *out, id)
+					os.MkdirAll(*out+"/evidence/violations", 0o755)
+					os.WriteFile(path, []byte(fmt.Sprintf("{\"property\":%q,\"status\":\"undecided\",\"detail\":%q}\n", id, fmt.Sprint(r))), 0o644)
+					fmt.Printf("VIOLATION property=%s replay=%s\n", id, path)
+					if *summary {
+						fmt.Printf("SUMMARY %s\n", mustJSON(runSummary{Prop: id, Violations: []sumViol{{Rule: id + "/PANIC", Construct: "analysis", Status: "undecided", Detail: fmt.Sprint(r)}}}))
+					}
+					code = 1
+				}
+			}()
+			expl := props[id](c)
+			if *explain {
+				for _, o := range c.Obls {
+					fmt.Printf("  [%s] %s %s @%s %s\n", o.Status, o.Rule, o.Construct, o.Pos, o.Detail)
+				}
+			}
+			var extra map[string]interface{}
+			if *tier == "thorough" && *goos == "" && *goarch == "" {
+				extra = thoroughExtras(c, *repo, *verif, !*noself)
+			}
+			return c.Finish(seed, pstart, expl, extra)
+		}()
+		if code > exit {
+			exit = code
+		}
+	}
+	os.Exit(exit)
+}
+
+func cfgLabel(goos, goarch string) string {
+	if goos == "" && goarch == "" {
+		return ""
+	}
+	return ", " + goos + "/" + goarch
 }
 
 func dumpTraces(p *Program, name string) {
